@@ -21,13 +21,13 @@ RULE = ("seeded templates (flat and hierarchical, shared operator / node templat
         "must return identical frames equal to the reference trajectory; non-trivial = sequence contains >= 1 compile and >= 1 "
         "getter/dump; distinct = distinct (spec, sequence) hash")
 DECIDING = ['fingerprint_checks', 'final_vf_checks', 'repeat_run_checks', 'op_get_edges', 'op_to_yaml', 'op_get_run_func', 'op_run',
-            'op_deepcopy', 'op_update_template', 'op_collect_edges', 'op_get_jacobian_func', 'op_op_update_template', 'op_nt_update_template']
+            'op_deepcopy', 'op_update_template', 'op_collect_edges', 'op_get_jacobian_func', 'op_op_update_template', 'op_nt_update_template', 'input_runs_compared']
 ASSUMPTIONS = ['the CircuitTemplate.state carry-over (final state of the last simulation) is documented statefulness and not part '
                'of the fingerprint; behaviour is compared at given states, not through the remembered initial state']
-CASE_TIMEOUT = 240
+CASE_TIMEOUT = 120
 FOCUS = ['compile_mixed_vectorize', 'to_yaml_with_variations']
 OPS = ['get_run_func', 'get_jacobian_func', 'run', 'get_nodes', 'get_edges', 'get_edge', 'collect_edges', 'get_node_template',
-       'getitem', 'to_yaml', 'deepcopy', 'update_template', 'op_update_template', 'nt_update_template']
+       'getitem', 'to_yaml', 'deepcopy', 'update_template', 'op_update_template', 'nt_update_template', 'run_input', 'run_input']
 
 
 def plan(tier, seed):
@@ -152,6 +152,28 @@ def run_case(case, ctx):
                     c2 = copy.deepcopy(tmpl)
                     c2.update_var(node_vars={'/'.join(ref.param_keys[0]) if False else '/'.join(k): 9.99 for k in ref.param_keys[:1]
                                              if ref.kind[k] == 'const'})
+                elif op == 'run_input':
+                    # read-only simulation with a long pulse-like extrinsic input (in_place=False, caches kept): the result must be
+                    # the reference trajectory for THIS input, whatever inputs earlier read-only calls were given
+                    in_keys = [k_ for k_ in ref.param_keys if ref.kind[k_] == 'in' and not ref._intra_sources(k_)]
+                    if in_keys and len(ref.state_keys) <= 10 and mech.get('input_runs_compared', 0) < 2:
+                        ik = in_keys[0]
+                        N_in = 1010
+                        arr = np.random.RandomState(rnd.randrange(1 << 30)).standard_normal(N_in)
+                        arr[:4] = 0.0
+                        arr[-4:] = 0.0
+                        k3 = keys[:3]
+                        # (on the sibling circuit built from the same template objects: a template that has been simulated WITH an
+                        # input keeps that run's final state under backend names that a later compile without the input does not
+                        # have - the recorded finding F-C14-mixed-vectorize-state-carryover)
+                        dfi = sibling.run(simulation_time=N_in * dt, step_size=dt, sampling_step_size=10 * dt,
+                                       outputs={f'o{i}': '/'.join(k_) for i, k_ in enumerate(k3)}, inputs={'/'.join(ik): arr.copy()},
+                                       vectorize=False, verbose=False, clear=False, in_place=False, float_precision='float64')
+                        expi = observe.ref_trajectory(ref, k3, N_in, dt, input_fn=lambda kk, ik=ik, arr=arr: {ik: float(arr[min(kk, N_in - 1)])})[::10]
+                        msgi = observe.compare_traj(dfi.values, expi[:dfi.shape[0]], rtol=1e-7)
+                        if msgi and msgi != 'discard':
+                            raise observe.Mismatch(f"run(in_place=False, inputs=<{N_in} samples>) as step {len(mech)} of sequence {seq}: {msgi}")
+                        mech['input_runs_compared'] = mech.get('input_runs_compared', 0) + 1
                 elif op == 'nt_update_template':
                     # derive a NodeTemplate from one of the shared node template objects (not in place) and modify the DERIVED one
                     ntname = rnd.choice(sorted(objs['nts']))
